@@ -1,8 +1,198 @@
 import PymtlVerif.Driver.Sexp
-/-! Handler `rtl` (stub: not built yet). -/
-namespace PV.Driver.Rtl
-open PV
+import PymtlVerif.Model.Rtl
+import PymtlVerif.Model.Kahn
+/-!
+Handler `rtl`: executable face of `Model/Rtl.lean` (C01, C02, C07, C11).
 
-def handle (_args : List Sexp) : Option String := none
+The proven definitions work on bit-level states `St = Var → Bool`. The driver keeps a table of naturals
+per signal between block executions (`ofTab`/`commit` below are driver glue, not part of the theorems): a block
+is run with the *proven* `Blk.run` / `Blk.runFF` on the function read off the table and the written signals
+are read back into the table.
+
+Requests
+  rtl check   <design>                     → `wf <noSelf> <singleWriter> deps ((a b) ...)`
+  rtl topo    <design> (ids...)            → `topo <perm?> <topoB>`
+  rtl watchok <design> (ids...) (watch...) → `watchok <0|1>`
+  rtl sim     <design> (entries...) (ff ids...) (cycles ((sig val)...) ...) [fuel]
+                                           → `ok ((vals after eval_comb) (vals after tick)) ...` | `cyclic <cycle>`
+  rtl kahn    (V...) ((a b)...) (picks...) → `order (ids...)`
+design  := (design (widths w...) (comb blk...) (ff blk...))
+blk     := (blk id asg...)         asg := (asg sig lo w expr)
+expr    := (c w v) | (r sig lo w) | (n w e) | (b op w e1 e2) | (m c a b) | (cat a wb b)
+entry   := (b id) | (scc (ids...) ((sig lo w)...))
+-/
+namespace PV.Driver.Rtl
+open PV PV.Rtl
+
+def bop? : String → Option BOp
+  | "add" => some .add | "sub" => some .sub | "mul" => some .mul | "and" => some .and | "or" => some .or
+  | "xor" => some .xor | "shl" => some .shl | "shr" => some .shr | "eq" => some .eq | "ne" => some .ne
+  | "lt" => some .lt | "le" => some .le | "gt" => some .gt | "ge" => some .ge | _ => none
+
+partial def expr? : Sexp → Option Expr
+  | .list [.atom "c", w, v] => do some (.const (← w.nat?) (← v.nat?))
+  | .list [.atom "r", g, lo, w] => do some (.rd ⟨← g.nat?, ← lo.nat?, ← w.nat?⟩)
+  | .list [.atom "n", w, e] => do some (.not (← w.nat?) (← expr? e))
+  | .list [.atom "b", .atom op, w, a, b] => do some (.bin (← bop? op) (← w.nat?) (← expr? a) (← expr? b))
+  | .list [.atom "m", c, a, b] => do some (.mux (← expr? c) (← expr? a) (← expr? b))
+  | .list [.atom "cat", a, wb, b] => do some (.cat (← expr? a) (← wb.nat?) (← expr? b))
+  | _ => none
+
+def rng? : Sexp → Option Rng
+  | .list [g, lo, w] => do some ⟨← g.nat?, ← lo.nat?, ← w.nat?⟩
+  | _ => none
+
+def asg? : Sexp → Option Asg
+  | .list [.atom "asg", g, lo, w, e] => do some ⟨⟨← g.nat?, ← lo.nat?, ← w.nat?⟩, ← expr? e⟩
+  | _ => none
+
+def blk? : Sexp → Option Blk
+  | .list (.atom "blk" :: id :: asgs) => do some ⟨← id.nat?, ← asgs.mapM asg?⟩
+  | _ => none
+
+def design? : Sexp → Option Design
+  | .list [.atom "design", .list (.atom "widths" :: ws), .list (.atom "comb" :: cs), .list (.atom "ff" :: fs)] => do
+    some ⟨← ws.mapM Sexp.nat?, ← cs.mapM blk?, ← fs.mapM blk?⟩
+  | _ => none
+
+inductive EntryId where
+  | b (id : Nat)
+  | scc (ids : List Nat) (watch : List Rng)
+
+def entryId? : Sexp → Option EntryId
+  | .list [.atom "b", id] => do some (.b (← id.nat?))
+  | .list [.atom "scc", ids, .list ws] => do some (.scc (← ids.nats?) (← ws.mapM rng?))
+  | _ => none
+
+/-! driver glue: table ↔ bit-level state -/
+def ofTab (t : Array Nat) : St := fun v => (t.getD v.1 0).testBit v.2
+
+def commit (widths : Array Nat) (t : Array Nat) (sigs : List Nat) (s' : St) : Array Nat :=
+  sigs.foldl (fun t g => if g < t.size then t.set! g (bitsToNat (fun i => s' (g, i)) (widths.getD g 0)) else t) t
+
+def writtenSigs (b : Blk) : List Nat := (b.writes.map (·.sig)).eraseDups
+
+def runBlkTab (widths : Array Nat) (t : Array Nat) (b : Blk) : Array Nat :=
+  commit widths t (writtenSigs b) (b.run (ofTab t))
+
+def stableTab (t t' : Array Nat) (watch : List Rng) : Bool :=
+  watch.all (fun r => (List.range r.w).all (fun i => (ofTab t) (r.sig, r.lo + i) == (ofTab t') (r.sig, r.lo + i)))
+
+/-- table version of `iterate` (same loop; each sweep uses the proven `Blk.run`) -/
+def iterateTab (widths : Array Nat) (fuel : Nat) (watch : List Rng) (scc : List Blk) (t : Array Nat) : Option (Array Nat) :=
+  match fuel with
+  | 0 => none
+  | f+1 =>
+    let t' := scc.foldl (runBlkTab widths) t
+    if stableTab t t' watch then some t' else iterateTab widths f watch scc t'
+
+inductive EntryB where
+  | b (b : Blk)
+  | scc (bs : List Blk) (watch : List Rng)
+
+def resolveEntries (comb : List Blk) (es : List EntryId) : Option (List EntryB) :=
+  es.mapM (fun e => match e with
+    | .b id => do some (.b (← lookupBlk comb id))
+    | .scc ids w => do some (.scc (← ids.mapM (lookupBlk comb)) w))
+
+def runEntriesTab (widths : Array Nat) (fuel : Nat) : List EntryB → Array Nat → Option (Array Nat)
+  | [], t => some t
+  | .b b :: es, t => runEntriesTab widths fuel es (runBlkTab widths t b)
+  | .scc bs w :: es, t =>
+    match iterateTab widths fuel w bs t with
+    | some t' => runEntriesTab widths fuel es t'
+    | none => none
+
+/-- ff phase + flip on tables, with the proven `Blk.runFF` -/
+def ffPhase (widths : Array Nat) (ffs : List Blk) (cur next : Array Nat) : Array Nat × Array Nat :=
+  let next' := ffs.foldl (fun nx b => commit widths nx (writtenSigs b) (b.runFF (ofTab cur) (ofTab nx))) next
+  let regs := (ffs.flatMap writtenSigs).eraseDups
+  let cur' := regs.foldl (fun c g => if g < c.size then c.set! g (next'.getD g 0) else c) cur
+  (cur', next')
+
+def showVals (t : Array Nat) : String := "(" ++ " ".intercalate (t.toList.map toString) ++ ")"
+
+def simulate (D : Design) (es : List EntryB) (ffs : List Blk) (cycles : List (List (Nat × Nat))) (fuel : Nat) : String := Id.run do
+  let widths := D.widths.toArray
+  let mut cur : Array Nat := Array.replicate widths.size 0
+  let mut next : Array Nat := Array.replicate widths.size 0
+  let mut out : Array String := #[]
+  let mut k := 0
+  for ins in cycles do
+    for (g, v) in ins do
+      if g < cur.size then cur := cur.set! g (v % 2 ^ (widths.getD g 0))
+    match runEntriesTab widths fuel es cur with
+    | none => return s!"cyclic {k}"
+    | some c1 =>
+      let a := showVals c1
+      -- tick: comb, ff, flip, comb
+      let (c2, n2) := ffPhase widths ffs c1 next
+      match runEntriesTab widths fuel es c2 with
+      | none => return s!"cyclic {k}"
+      | some c3 =>
+        cur := c3; next := n2
+        out := out.push s!"({a} {showVals c3})"
+    k := k + 1
+  return "ok " ++ " ".intercalate out.toList
+
+def pairs? (x : Sexp) : Option (List (Nat × Nat)) := do
+  let xs ← x.list?
+  xs.mapM (fun p => match p with
+    | .list [a, b] => do some (← a.nat?, ← b.nat?)
+    | _ => none)
+
+def showPairs (ps : List (Nat × Nat)) : String :=
+  "(" ++ " ".intercalate (ps.map (fun p => s!"({p.1} {p.2})")) ++ ")"
+
+def handle (args : List Sexp) : Option String :=
+  match args with
+  | [.atom "check", d] => do
+    let D ← design? d
+    let all := D.comb
+    let ns := all.all (·.noSelf) && D.ff.all (fun _ => true)
+    let sw := singleWriterB (D.comb ++ D.ff)
+    let ds := (deps (D.comb ++ D.ff)).eraseDups
+    some s!"wf {b2s ns} {b2s sw} deps {showPairs ds}"
+  | [.atom "topo", d, o] => do
+    let D ← design? d
+    let ids ← o.nats?
+    match orderBlocks D.comb ids with
+    | none => some "topo 0 0"
+    | some bs =>
+      let perm := ids.length == D.comb.length && ids.eraseDups.length == ids.length
+      some s!"topo {b2s perm} {b2s (topoB bs)}"
+  | [.atom "watchok", d, ids, .list ws] => do
+    let D ← design? d
+    let bs ← (← ids.nats?).mapM (lookupBlk D.comb)
+    some s!"watchok {b2s (watchOKB bs (← ws.mapM rng?))}"
+  | .atom "sim" :: d :: .list es :: ffo :: .list cyc :: rest => do
+    let D ← design? d
+    let entries ← resolveEntries D.comb (← es.mapM entryId?)
+    let ffs ← (← ffo.nats?).mapM (lookupBlk D.ff)
+    let cycles ← cyc.mapM pairs?
+    let fuel ← match rest with
+      | [] => some 100
+      | [f] => f.nat?
+      | _ => none
+    some (simulate D entries ffs cycles fuel)
+  | [.atom "kahn", vs, es, ps] => do
+    let V ← vs.nats?
+    let E ← pairs? es
+    let picks ← ps.nats?
+    -- the tie-break oracle replays the recorded choices: the k-th call returns picks[k]; since `kahn` calls
+    -- `pick` once per emitted vertex with the ready list, we index by the length of what is already done,
+    -- which the ready list does not reveal — so the recorded choice is given as the chosen *vertex*:
+    -- pick returns the index of picks[#emitted] in the ready list. We thread #emitted through fuel:
+    let rec go (fuel : Nat) (done : List Nat) (picks : List Nat) : List Nat :=
+      match fuel with
+      | 0 => done.reverse
+      | f+1 =>
+        let r := Kahn.ready V E done
+        match r, picks with
+        | [], _ => done.reverse
+        | _, [] => done.reverse
+        | _, p :: ps => if r.contains p then go f (p :: done) ps else done.reverse
+    some s!"order {natsToString (go V.length [] picks)} ref {natsToString (Kahn.kahn (fun _ => 0) V E V.length [])}"
+  | _ => none
 
 end PV.Driver.Rtl
